@@ -62,6 +62,8 @@ def witness(w):
     from DocumentTemplate.DT_HTML import HTML
     from AccessControl.tainted import TaintedString as T
     out = HTML(w['source'])(x=T(w['value']))
+    if w.get('kind') == 'double':
+        return dict(holds='&amp;lt;' not in out, output=out)
     return dict(holds=not leaks(out, '<'), output=out)
 
 
